@@ -24,7 +24,7 @@ PYTEST = True     # thorough tier also runs the repository's own tests under the
 MANDATORY = ["judged:reducible-row-holds-everywhere", "judged:forced-column-value", "judged:reduce-preserves-projection",
              "judged:result-variables-and-index", "judged:reduce_rows-definition", "judged:reduce_columns-definition",
              "count:feasible", "count:infeasible", "count:some-row-reducible", "count:some-column-forced",
-             "contract:ge_polyhedron.reducable_rows_and_columns", "contract:ge_polyhedron.reduce"]
+             "contract:ge_polyhedron.reducable_rows_and_columns", "contract:ge_polyhedron.reduce", "judged:receiver-unchanged"]
 LIMIT = 600_000
 
 
@@ -239,11 +239,32 @@ def install(ctx):
 
 
 def gen_case(rng, tier, ctx, i):
-    return {"poly": polygen.gen_poly(rng), "via": rng.choice(["method", "alias", "class"])}
+    return {"poly": polygen.gen_poly(rng), "via": rng.choice(["method", "alias", "class", "direct"])}
+
+
+def receiver_unchanged(ctx, case, P):
+    """the polyhedron the caller holds is still the one that was built (nothing observed through it may have moved)"""
+    now = numpy.asarray(P).astype(numpy.int64).tolist()
+    ctx.check(now == case["poly"]["M"], "receiver-unchanged", lambda: {"built": case["poly"]["M"], "now": now, "bounds": case["poly"]["bounds"]})
+    return now == case["poly"]["M"]
 
 
 def run_case(case, ctx):
+    _run(case, ctx)
+
+
+def _run(case, ctx):
     P = polygen.build_poly(case["poly"])
+    if case["via"] == "direct":
+        rc = ctx.call("reducable_rows_and_columns", P.reducable_rows_and_columns)
+        ctx.call("reduce_columns", P.reduce_columns, rc[1])
+        if not receiver_unchanged(ctx, case, P):
+            return
+        ctx.call("reduce_rows", P.reduce_rows, rc[0])
+        ctx.call("reduce", P.reduce, rc[0], rc[1])
+        ctx.call("reducable_rows_and_columns", P.reducable_rows_and_columns)
+        receiver_unchanged(ctx, case, P)
+        return
     if case["via"] == "method":
         rc = ctx.call("reducable_rows_and_columns", P.reducable_rows_and_columns)
         ctx.call("reduce", P.reduce, *rc)
